@@ -148,7 +148,7 @@ def strategy(tier):
 
 
 def budget(tier):
-    return 120000 if tier == 'quick' else 6000000
+    return 120000 if tier == 'quick' else 3000000
 
 
 def enumerate_cases(tier, shard=0, nshards=1):
